@@ -185,7 +185,8 @@ def check_writer_forms(idx: Index, rep: Report) -> None:
     rt = unparse(reader.node)
     # bool
     body = cases.get("bool")
-    reader_bool = "span.text == 'true'" in rt and "span.text == 'false'" in rt
+    mt_ = re.search(r"\b(\w+)\.text == 'true'", rt)
+    reader_bool = bool(mt_) and f"{mt_.group(1)}.text == 'false'" in rt
     if not reader_bool and re.search(r"if ([\w.]+) in \('true', 'false'\):\s+return \1 == 'true'", rt):
         reader_bool = True
     if not reader_bool:
@@ -299,8 +300,9 @@ def check_escapes(idx: Index, rep: Report) -> None:
         raise AnalysisError(f"escape class not found in STRING_LIT pattern {pat!r}")
     lex_esc = set(m.group(1).replace("\\\\", "\\"))
     bc = idx.func(LEXER, "StringLiteral.bytes_contents")
-    maps = [n for n in walk_local(bc.node) if isinstance(n, ast.Assign) and isinstance(n.value, ast.Dict) and unparse(n.targets[0]) == "escape_str_mapping"]
-    dec_esc = {k.value[1] for k in maps[0].value.keys}  # type: ignore[union-attr]
+    from ..rx_extract import escape_table
+
+    dec_esc = {k[1] for k in escape_table(bc)}
     extra = sorted(lex_esc - dec_esc)
     reader = idx.func(AS, "_parse_parameter_value_element")
     converts = any(isinstance(n, ast.Try) and "string_contents" in unparse(n) for n in walk_local(reader.node))
